@@ -191,6 +191,15 @@ Fixpoint pkg_assoc (k : pkgid) (l : list (pkgid * nat)) : option nat :=
   | (k', v) :: r => if pkgid_eqb k' k then Some v else pkg_assoc k r
   end.
 
+(** [Scope.instances] is keyed by the interface id of the AGGREGATED interface; the aggregator keeps one
+    interface per semver track of ids ([remap_interface] / [find_semver_compatible_interface]), so two ids
+    denote the same key exactly when they are equal or on one track. *)
+Fixpoint reg_lookup (i : str) (reg : list (str * (nat * str))) : option (nat * str) :=
+  match reg with
+  | [] => None
+  | (k, v) :: r => if compat k i then Some v else reg_lookup i r
+  end.
+
 Section Encode.
   Variable e : wenv.
   Variable u : universe.
@@ -212,7 +221,7 @@ Section Encode.
            end, idx) in
     match ae_sort a, ae_iid a with
     | SInstance, Some i =>
-        match str_assoc i (e_reg st) with
+        match reg_lookup i (e_reg st) with
         | Some (idx, under) =>
             ROk ({| e_log := e_log st; e_nidx := e_nidx st; e_pkgs := e_pkgs st; e_reg := e_reg st; e_impl := e_impl st;
                     e_dedup := e_dedup st ++ [(ae_name a, under)] |}, idx)
@@ -222,18 +231,21 @@ Section Encode.
     end.
 
   (** [resolve_imports], first loop: unsatisfied arguments of every instantiation in node order *)
+  Definition implicit_requests : list (nat * (name * kid)) :=
+    flat_map (fun n => map (fun p => (n, p)) (unsat_args u g n)) (filter (is_inst g) (node_ids g)).
+
   Definition resolve_implicit : res (agg * list (name * kid * nat)) :=
-    fold_left (fun (acc : res (agg * list (name * kid * nat))) (n : nat) =>
-      fold_left (fun (acc : res (agg * list (name * kid * nat))) (p : name * kid) =>
-        do (a, impl) <- acc ;;
-        match alist_get N.eqb (imports g) (fst p) with
-        | Some imp => RErr (EImplicitImportConflict imp n (nstr e (fst p)))
-        | None =>
-            match agg_add a (nstr e (fst p)) (we_sort e (snd p)) (we_iid e (snd p)) with
-            | AggOk a' => ROk (a', impl ++ [(fst p, snd p, n)])
-            | AggKindMismatch => RErr (EMergeConflict (nstr e (fst p)))
-            end
-        end) (unsat_args u g n) acc) (filter (is_inst g) (node_ids g)) (ROk (agg_empty, [])).
+    fold_left (fun (acc : res (agg * list (name * kid * nat))) (np : nat * (name * kid)) =>
+      do (a, impl) <- acc ;;
+      let '(n, p) := np in
+      match alist_get N.eqb (imports g) (fst p) with
+      | Some imp => RErr (EImplicitImportConflict imp n (nstr e (fst p)))
+      | None =>
+          match agg_add a (nstr e (fst p)) (we_sort e (snd p)) (we_iid e (snd p)) with
+          | AggOk a' => ROk (a', impl ++ [(fst p, snd p, n)])
+          | AggKindMismatch => RErr (EMergeConflict (nstr e (fst p)))
+          end
+      end) implicit_requests (ROk (agg_empty, [])).
 
   (** second loop: the explicit imports, in the order [toposort] left them; a failed merge is an [unwrap] *)
   Definition resolve_explicit (a : agg) (import_nodes : list nat) : res (agg * list (str * nat)) :=
@@ -394,23 +406,23 @@ Section Encode.
 
   (** [encode_names]: per sort, in node order *)
   Definition enc_names (st : est) : res (list (sort * nat * str)) :=
-    fold_left (fun (acc : res (list (sort * nat * str))) (s : sort) =>
-      fold_left (fun (acc : res (list (sort * nat * str))) (n : nat) =>
-        do l <- acc ;;
-        match get_node g n with
-        | Some nd =>
-            match nname nd with
-            | Some nm =>
-                if sort_eqb (we_sort e (nitem nd)) s then
-                  match nat_assoc n (e_nidx st) with
-                  | Some idx => ROk (l ++ [(s, idx, nstr e nm)])
-                  | None => RErr (EPanic XNodeIndexMissing)
-                  end
-                else ROk l
-            | None => ROk l
-            end
-        | None => ROk l
-        end) (node_ids g) acc) name_sorts (ROk []).
+    fold_left (fun (acc : res (list (sort * nat * str))) (sn : sort * nat) =>
+      do l <- acc ;;
+      let '(s, n) := sn in
+      match get_node g n with
+      | Some nd =>
+          match nname nd with
+          | Some nm =>
+              if sort_eqb (we_sort e (nitem nd)) s then
+                match nat_assoc n (e_nidx st) with
+                | Some idx => ROk (l ++ [(s, idx, nstr e nm)])
+                | None => RErr (EPanic XNodeIndexMissing)
+                end
+              else ROk l
+          | None => ROk l
+          end
+      | None => ROk l
+      end) (list_prod name_sorts (node_ids g)) (ROk []).
 
   (** [encode] for a GIVEN emission order of the nodes *)
   Definition encode_with_order (ord : list nat) : res (est * list (sort * nat * str)) :=
